@@ -162,6 +162,9 @@ func addPathQueries(bt *batch, rep *lib.Report, r *rand.Rand, d *fdump, hdr, src
 				rep.Count("path:with-conditions")
 			}
 		}
+		if key != "" && len(rep.Samples) < 2 && n >= 6 && p.b == 0 && p.e == n-1 {
+			rep.Sample(map[string]any{"function": fn.String(), "cfg": cfg, "query": fmt.Sprintf("path %d %d", p.b, p.e), "real_and_model_answer": want})
+		}
 		bt.ask(&query{text: fmt.Sprintf("path %d %d", p.b, p.e), want: want, hdr: hdr,
 			ctx: fmt.Sprintf("function %s\n%s\ncfg: %s\nproperty-level check of the real answer: %q\n", fn.String(), src, cfg, checkRealPath(b, e))})
 	}
